@@ -522,6 +522,18 @@ class _:
     run = staticmethod(lambda L, a, i: _sigobj(i, a).psd("-", n=a["n"], yscale=a["yscale"]))
 
 
+@entry("m.arith", needs=("O", "E"))
+class _:
+    gen = staticmethod(lambda r: {"on": r.choice("OE"), "form": r.choice(["0+x", "sum", "x+x", "x*2", "x-1", "2-x", "x+0.0"])})
+
+    @staticmethod
+    def run(L, a, i):
+        x = _sigobj(i, a)
+        f = a["form"]
+        return {"0+x": lambda: 0 + x, "sum": lambda: sum([x]), "x+x": lambda: x + x, "x*2": lambda: x * 2,
+                "x-1": lambda: x - 1, "2-x": lambda: 2 - x, "x+0.0": lambda: x + 0.0}[f]()
+
+
 @entry("m.gt", needs=("E", "arr"))
 class _:
     gen = staticmethod(lambda r: {"cmp": r.choice([">", "<"]), "thr": r.choice(["scalar", "poolarr"])})
